@@ -109,6 +109,43 @@ pub fn f2k(kinds: &'static [usize], label: &str) -> Family {
     }
 }
 
+/// FT: positions that can be parsed but not reached by play: every filling of the four trap squares with
+/// {empty, R, C, E, r, c, e} (at least two occupied, all unsupported), plus a gold dog on a1 and a silver dog on h8 that
+/// can step.  C03 quantifies over games "from any parsed position": the first step from such a position removes several
+/// pieces at once, which no reachable state does.  Used for C03 only (C13's "never more than one piece" is about
+/// reachable states).
+pub fn ftraps() -> Family {
+    let alphabet: [rm::Cell; 7] = [rm::EMPTY, rm::cell(true, 0), rm::cell(true, 1), rm::cell(true, 5), rm::cell(false, 0), rm::cell(false, 1), rm::cell(false, 5)];
+    let n = 7u64.pow(4) * 2;
+    Family {
+        name: "FT (parsed, not reachable: every filling of the four trap squares with {empty,R,C,E,r,c,e}, >= 2 occupied, all unsupported; D a1 and d h8 can step; 7^4 x 2 sides)".into(),
+        n,
+        how: 1,
+        setups: None,
+        decode: Box::new(move |idx| {
+            let side = idx % 2 == 0;
+            let mut fill = idx / 2;
+            let mut b = [rm::EMPTY; 64];
+            let mut cnt = 0;
+            for &t in rm::TRAPS.iter() {
+                let v = alphabet[(fill % 7) as usize];
+                fill /= 7;
+                if v != rm::EMPTY {
+                    b[t] = v;
+                    cnt += 1;
+                }
+            }
+            b[56] = rm::cell(true, 2);
+            b[7] = rm::cell(false, 2);
+            if cnt >= 2 {
+                Some((b, side))
+            } else {
+                None
+            }
+        }),
+    }
+}
+
 /// F4B: two Gold pieces (kinds R C E) and two Silver pieces (kinds r c e) on any four of the 28 border squares, plus a
 /// silver rabbit parked on d5 (so that neither elimination nor goal decides when Gold has a rabbit): every way two pieces
 /// of one side can face each other across the whole board along an edge, with their freezers next to them.  Meant for
